@@ -189,10 +189,10 @@ prop("C18",
      assumptions=COMMON[:1] + COMMON[2:3] + ["proto.Size(Entry) is the exact protobuf wire-size formula (engine intrinsic, validated by native replay)"])
 
 prop("C20",
-     H(PROP_Q, ["P1/", "P2/", "P3/", "L5/accept"]) + H(CONF[:2], ["P1/", "P2/"]),
-     H(T(PROP), ["P1/", "P2/", "P3/", "L5/accept"]) + H(CONF[:2] + ['vpH_conf_Propose_3'], ["P1/", "P2/"]) + H(T(LEAD + LEAD_HBR + APP + HUP), ["M3/", "N2/"]),
+     H(PROP_Q, ["P1/", "P2/", "P3/", "L5/accept"]) + H(CONF[:2], ["P1/", "P2/"]) + H(APP[:1] + VRESP[:1] + SNAP[:1] + HB[:1] + LEAD[:2] + ACK[:1], ["P4/"]),
+     H(T(PROP), ["P1/", "P2/", "P3/", "L5/accept"]) + H(CONF[:2] + ['vpH_conf_Propose_3'], ["P1/", "P2/"]) + H(T(LEAD + LEAD_HBR + LEAD_ACK + APP + SNAP + HUP + VRESP), ["P4/", "M3/", "N2/"]) + H(ACK, ["P4/"]),
      BQ + BT + "Proposals: <= 2 entries with opaque payloads of symbolic length (identity tracked). " + OUT,
-     "P1 an accepted proposal appends exactly the proposed entries (payload, type, order) once, as copies, P2 a dropped proposal changes nothing, P3 non-leaders forward the same entries once or drop.")
+     "P1 an accepted proposal appends exactly the proposed entries (payload, type, order) once, as copies, P2 a dropped proposal changes nothing, P3 non-leaders forward the same entries once or drop, P4 outside proposals every new or changed log entry is an entry of the stepped MsgApp, the empty entry of a new leader or the empty auto-leave entry.")
 
 prop("C14",
      H(VOTE + VRESP[:4] + HUP + HB + APP[:1] + SNAP[:1] + PROP_Q + LEAD + LEAD_ACK_Q[:1] + SMALL, ["Inv/"], panics=True) + H(RAW_SYNC_Q + RAW_ASYNC_Q[:1] + RAW_SNAP + RESTART + CONF[2:] + ACK[:1] + ACK[3:4], ["Inv/"], panics=True),
